@@ -21,7 +21,10 @@ EXTENDS Naturals, Sequences, TLC, Json
 
 CONSTANT MaxLen
 
-Ops == {"submit", "start", "start:unknown", "race2", "race3", "wait", "wait:unknown", "plan", "plan:unknown", "status", "status:unknown"}
+\* "statusbrk": a Status consumer that stops after the first result; "waitto": a Wait whose context expires after 1 ms
+\* (both leave the plan alone: neither changes what Start must answer, both must not disturb a running plan)
+Ops == {"submit", "start", "start:unknown", "race2", "race3", "wait", "wait:unknown", "plan", "plan:unknown", "status", "status:unknown",
+        "statusbrk", "waitto"}
 
 VARIABLES submitted, started, hist
 vars == <<submitted, started, hist>>
